@@ -18,6 +18,7 @@ Independent of pymtl3 (nothing is imported from the repository).  The result is 
           | {"k": "id", "n"} | {"k": "field", "e", "f"} | {"k": "idx", "e", "i"}
           | {"k": "range", "e", "h", "l"} | {"k": "psel", "e", "b", "w"}
           | {"k": "cat", "es"} | {"k": "rep", "n", "es"} | {"k": "cast", "w", "e"}
+          | {"k": "sel", "e": cat / rep, "h", "l"}       select on a concatenation
           | {"k": "un", "op", "e"} | {"k": "bin", "op", "a", "b"} | {"k": "cond", "c", "a", "b"}
   PATTERN = EXPR | {"k": "apat", "es": [PATTERN]}
 
@@ -628,7 +629,19 @@ class Parser:
                 self.expect("}")
                 e = {"k": "cat", "es": es}
             if self.at("["):
-                raise SVUnsupported("line %d: select on a concatenation" % self.t.line)
+                # 1800-2017 A.8.4: concatenation [ [ range_expression ] ]
+                self.i += 1
+                a = self.expr()
+                if self.eat(":"):
+                    b = self.expr()
+                elif self.at("+:") or self.at("-:"):
+                    raise SVUnsupported("line %d: indexed part select on a concatenation" % self.t.line)
+                else:
+                    b = a
+                self.expect("]")
+                e = {"k": "sel", "e": e, "h": a, "l": b}
+                if self.at("[") or self.at("."):
+                    raise SVSyntaxError("line %d: second select on a concatenation" % self.t.line)
             return e
         if t.k == "op" and t.v == "'{":
             raise SVUnsupported("line %d: assignment pattern inside an expression" % t.line)
@@ -689,9 +702,58 @@ def check_names(ast):
     for mn in ast["order"]:
         m = ast["modules"][mn]
         declared = {p["n"] for p in m["ports"]} | {v["n"] for v in m["vars"]} | {p["n"] for p in m["params"]}
+        insts = {it["n"]: it["mod"] for it in m["insts"]}
+        vtypes = {x["n"]: x["ty"] for x in m["ports"] + m["vars"] + m["params"]}
+
+        def stype(e, local):
+            """static type (base, #packed dims, #unpacked dims) of a reference, None if not known here"""
+            k = e["k"]
+            if k == "id":
+                if e["n"] in local or e["n"] not in vtypes:
+                    return None
+                t = vtypes[e["n"]]
+                return (t["base"], len(t["pd"]), len(t["ud"]))
+            if k not in ("idx", "field", "range", "psel"):
+                return None
+            t = stype(e["e"], local)
+            if t is None:
+                return None
+            base, npd, nud = t
+            if k == "field":
+                if base == "logic" or npd or nud:
+                    raise SVSyntaxError("module %s: member select .%s on an expression that is not of struct type"
+                                        % (mn, e["f"]))
+                fs = {f["n"]: f["ty"] for f in ast["types"][base]["fields"]}
+                if e["f"] not in fs:
+                    raise SVSyntaxError("module %s: struct %s has no member %s" % (mn, base, e["f"]))
+                ft = fs[e["f"]]
+                return (ft["base"], len(ft["pd"]), 0)
+            if k == "idx":
+                if nud:
+                    return (base, npd, nud - 1)
+                if npd:
+                    return (base, npd - 1, 0)
+                if base == "logic":
+                    raise SVSyntaxError("module %s: bit select on a scalar" % mn)
+                return None          # bit select of a packed struct
+            if nud:
+                raise SVUnsupported("module %s: slice of an unpacked array" % mn)
+            return (base, npd, 0) if npd else None
 
         def walk_e(e, local):
             k = e["k"]
+            if k == "field" and e["e"]["k"] == "id" and e["e"]["n"] in insts and e["e"]["n"] not in local \
+                    and e["e"]["n"] not in declared:
+                # hierarchical reference to a signal of a child instance (23.6)
+                sub = ast["modules"].get(insts[e["e"]["n"]])
+                if sub is None:
+                    raise SVSyntaxError("module %s: instance %s of undefined module" % (mn, e["e"]["n"]))
+                names = {p["n"] for p in sub["ports"]} | {v["n"] for v in sub["vars"]} | {p["n"] for p in sub["params"]}
+                if e["f"] not in names:
+                    raise SVSyntaxError("module %s: %s.%s does not exist" % (mn, e["e"]["n"], e["f"]))
+                return
+            if k in ("field", "idx"):
+                stype(e, local)
             if k == "id":
                 if e["n"] not in declared and e["n"] not in local:
                     raise SVSyntaxError("module %s: identifier %r is not declared" % (mn, e["n"]))
